@@ -668,3 +668,70 @@ Definition senc_box (sr_path : bool) (bs : list N) (iv_in : N) : option (res (bo
     else Some (senc_two_phase sr_path hs hl
                  (if sr_path then skipn (N.to_nat hl) bs else firstn (N.to_nat (hs - hl)) (skipn (N.to_nat hl) bs)) iv_in)
   end.
+
+(* ---- hvcC (mp4/hvcc.go + hevc/hevcdecoderconfigurationrecord.go DecodeHEVCDecConfRec) on the payload bytes.
+        numOfArrays is 8 bit, numNalus and naluLength 16 bit; the inner loop appends the NALU slice (24-byte header) and
+        THEN leaves on the accumulated error; NaluArray = byte + slice header = 32 bytes.
+        Inner result: (failed, nalus, alloc, iters, reader). Fuel: an accepted NALU consumes >= 2 bytes. ---- *)
+Fixpoint hvcc_nalus (raw : list N) (fuel : nat) (n i : N) (s : rd) (al it : N) : res (bool * N * N * rd) :=
+  match fuel with
+  | O => OutOfFuel
+  | S f =>
+    if n <=? i then Ok (false, al, it, s)
+    else
+      let '(len, s) := rd_n raw 2 s in
+      let s := rd_skip raw len s in
+      if r_err s then Ok (true, al + 24, it + 1, s)
+      else hvcc_nalus raw f n (i + 1) s (al + 24) (it + 1)
+  end.
+
+Fixpoint hvcc_arrays (raw : list N) (n : nat) (s : rd) (arrays al it : N) : res (bool * N * N * N * rd) :=
+  match n with
+  | O => Ok (false, arrays, al, it, s)
+  | S n' =>
+    let s := rd_skip raw 1 s in
+    let '(nn, s) := rd_n raw 2 s in
+    match hvcc_nalus raw (S (length raw)) nn 0 s al (it + 1) with
+    | Ok (true, al, it, s) => Ok (true, arrays, al, it, s)
+    | Ok (false, al, it, s) => hvcc_arrays raw n' s (arrays + 1) (al + 32) it
+    | Err => Err | Panic => Panic | OutOfFuel => OutOfFuel
+    end
+  end.
+
+Definition hvcc_record (raw : list N) : res aout :=
+  let '(ver, s) := rd_n raw 1 rd0 in
+  if negb (ver =? 1) then rej
+  else
+    let s := rd_skip raw 1 s in
+    let s := rd_skip raw 4 s in
+    let s := rd_skip raw 2 (rd_skip raw 4 s) in
+    let s := rd_skip raw 1 s in
+    let s := rd_skip raw 2 s in
+    let s := rd_skip raw 1 (rd_skip raw 1 (rd_skip raw 1 (rd_skip raw 1 s))) in
+    let s := rd_skip raw 2 s in
+    let '(ab, s) := rd_n raw 1 s in
+    if negb (ab mod 4 =? 3) then rej
+    else
+      let '(na, s) := rd_n raw 1 s in
+      match hvcc_arrays raw (N.to_nat na) s 0 0 0 with
+      | Ok (failed, arrays, al, it, s) => Ok (mkO (negb failed && negb (r_err s)) arrays al it)
+      | Err => Err | Panic => Panic | OutOfFuel => OutOfFuel
+      end.
+
+(* DecodeHvcCSR: the record is decoded from sr.ReadBytes(hdr.payloadLen()) (an empty slice when that fails);
+   DecodeHvcC: from the body *)
+Definition alloc_hvcc (sr_path : bool) (hs hl : N) (body : list N) : res aout :=
+  if sr_path then
+    let s := rd_bytes_z body (apayload_len hs hl) rd0 in
+    hvcc_record (if r_err s then [] else firstn (Z.to_nat (apayload_len hs hl)) body)
+  else hvcc_record body.
+
+Definition hvcc_box (sr_path : bool) (bs : list N) : option (res aout) :=
+  match hdr_of bs with
+  | None => Some rej
+  | Some (hs, hl) =>
+    if negb (aeqb_name (name_of bs) [104;118;99;67]) then None
+    else if lenN bs <? hs then Some rej
+    else Some (alloc_hvcc sr_path hs hl
+                 (if sr_path then skipn (N.to_nat hl) bs else firstn (N.to_nat (hs - hl)) (skipn (N.to_nat hl) bs)))
+  end.
